@@ -823,7 +823,7 @@ def r_vector_helpers(rule, root=None):
             fn = None
         if fn is not None:
             args = [A.binding_name(p["pat"]) for p in fn["sig"]["inputs"] if "pat" in p]
-            got = lit_fields(fn)
+            got = lit_fields(fn, cs)
             if args == cs and got == {c: c for c in cs}:
                 rule.ok("%s::new takes its components in order" % ty, file=TYPES_RS, line=fn["ln"])
             else:
@@ -836,7 +836,7 @@ def r_vector_helpers(rule, root=None):
             fn = fns_[0]
             fn["_file"] = TYPES_RS
             arg = [A.binding_name(p["pat"]) for p in fn["sig"]["inputs"] if "pat" in p][0]
-            got = lit_fields(fn)
+            got = lit_fields(fn, cs)
             if tr == "From<f32>":
                 exp = {c: arg for c in cs}
                 what = "a scalar becomes the vector with every component equal to it"
@@ -876,11 +876,11 @@ def r_vector_helpers(rule, root=None):
 
     body = C17.tok(mdefs["impl_binary"]["tokens"]) if "impl_binary" in mdefs else ""
     facts = [
-        ("vector op vector combines component-wise as a.op(b)", r"fn\$base_fn\(self,(?P<r>\w+):\$ty\)->Self\{self\.combine\((?P=r),\|(?P<a>\w+),(?P<b>\w+)\|(?P=a)\.\$base_fn\((?P=b)\)\)\}"),
+        ("vector op vector combines component-wise as a.op(b)", r"fn\$base_fn\(self,(?P<r>\w+):\$ty\)->Self\{self\.combine\((?P=r),(?:\|(?P<a>\w+),(?P<b>\w+)\|(?P=a)\.\$base_fn\((?P=b)\)|<f32as(?:std::ops::)?\$op>::\$base_fn|f32::\$base_fn)\)\}"),
         ("scalar op vector is splat(scalar).op(vector)", r"impl(?:std::ops::)?\$op<\$ty>forf32\{typeOutput=\$ty;fn\$base_fn\(self,(?P<r>\w+):\$ty\)->\$ty\{(?:\$ty::from\(self\)\.\$base_fn\((?P=r)\)|(?P=r)\.map\(\|(?P<b>\w+)\|self\.\$base_fn\((?P=b)\)\))\}\}"),
         ("vector op scalar is vector.op(splat(scalar))", r"impl(?:std::ops::)?\$op<f32>for\$ty\{typeOutput=\$ty;fn\$base_fn\(self,(?P<r>\w+):f32\)->\$ty\{(?:self\.\$base_fn\(\$ty::from\((?P=r)\)\)|self\.map\(\|(?P<a>\w+)\|(?P=a)\.\$base_fn\((?P=r)\)\))\}\}"),
         ("named binary helpers (min / max) combine self with the converted argument", r"self\.combine\(\$ty::from\((?P<r>\w+)\),\$f\)"),
-        ("the default closure of a named binary helper is a.f(b)", r"impl_binary!\(\$ty,\$base_fn,\|(?P<a>\w+),(?P<b>\w+)\|(?P=a)\.\$base_fn\((?P=b)\)\);"),
+        ("the default closure of a named binary helper is a.f(b)", r"impl_binary!\(\$ty,\$base_fn,(?:\|(?P<a>\w+),(?P<b>\w+)\|(?P=a)\.\$base_fn\((?P=b)\)|f32::\$base_fn)\);"),
     ]
     for what, rx in facts:
         if re.search(rx, body):
@@ -891,7 +891,7 @@ def r_vector_helpers(rule, root=None):
     facts = [
         ("operator form maps the operator over the components", r"fn\$base_fn\(self\)->\$ty\{self\.map\((?:std::ops::)?\$op::\$base_fn\)\}"),
         ("named form maps its function", r"pubfn\$base_fn\(self\)->Self\{self\.map\(\$f\)\}"),
-        ("the default closure is a.f()", r"impl_unary!\(\$ty,\$base_fn,\|(?P<a>\w+)\|(?P=a)\.\$base_fn\(\)\);"),
+        ("the default closure is a.f()", r"impl_unary!\(\$ty,\$base_fn,(?:\|(?P<a>\w+)\|(?P=a)\.\$base_fn\(\)|f32::\$base_fn)\);"),
     ]
     for what, rx in facts:
         if re.search(rx, body):
